@@ -398,7 +398,9 @@ def set_default_doc(param, emit_default_doc=True):
                     else "{doc}.".format(doc=_param["doc"])
                 ),
                 default=(
-                    quote(
+                    '""'
+                    if isinstance(_param["default"], str) and not _param["default"]
+                    else quote(
                         _param["default"],
                         mark=(
                             "'"
